@@ -626,6 +626,7 @@ EXTRA["C03"] = ["C01_", "C02_Delivered", "C06_Genuine", "C06_AtMostOnce", "C17_W
 
 @check("C09", ["C09_"])
 def c09(ctx):
+    ctx.level = "fault_enumeration"
     binp = ctx.harness()
     out = ctx.scr.mkdir("crash")
     ps = L.run_shards(binp, "crash", out, 16, {"VF_NSHARDS": 16, "VF_STRIDE": 3 if ctx.quick else 1})
